@@ -76,6 +76,10 @@ Json::Value genC20(Rng& rng) {
       int64_t sz = big && rng.chance(0.4)
           ? rng.pick<int64_t>({64 << 10, 200 << 10, 300 << 10, 100 << 10})
           : rng.range(10, 400);
+      // a single line at or beyond the whole cap (can never be queued)
+      if (big && rng.chance(0.03))
+        sz = rng.pick<int64_t>({(1 << 20) - 40, (1 << 20) - 1, 1 << 20,
+                                (1 << 20) + 1, (2 << 20) + 5});
       l["size"] = (Json::Int64)sz;
       if (rng.chance(0.05)) {
         l["ctl"] = silenced ? "enable" : "disable";
